@@ -20,41 +20,41 @@ attribute [local simp] RoundTrips FixedAfter ShellKept shell elemComp ownCirc re
 set_option maxRecDepth 8000
 set_option maxHeartbeats 400000
 
-theorem rt_RectVoltageSource_deg (π : Rat) (v w phi : GQ) (hv : v.im = 0) (hw : w.im = 0) (hw0 : ¬ w.re < 0) (hp : phi.im = 0) (deg rev : Bool) (name : String) (a b : Pt) :
+theorem rt_RectVoltageSource_deg (π : Rat) (v w phi : GQ) (hv : v.im = 0) (hw : w.im = 0) (hw0 : ¬ w.re ≤ 0) (hp : phi.im = 0) (deg rev : Bool) (name : String) (a b : Pt) :
     RoundTrips π ⟨"RectVoltageSource", [("V", .num v), ("w", .num w), ("phi", .num phi), ("deg", .bool deg), ("name", .str name), ("reverse", .bool rev)], a, b⟩ := by
   intro la lb la' lb'
   cases deg <;> cases rev <;> simp [hv, hw, hw0, hp]
 
-theorem fx_RectVoltageSource_deg (π : Rat) (v w phi : GQ) (hv : v.im = 0) (hw : w.im = 0) (hw0 : ¬ w.re < 0) (hp : phi.im = 0) (deg rev : Bool) (name : String) (a b : Pt) :
+theorem fx_RectVoltageSource_deg (π : Rat) (v w phi : GQ) (hv : v.im = 0) (hw : w.im = 0) (hw0 : ¬ w.re ≤ 0) (hp : phi.im = 0) (deg rev : Bool) (name : String) (a b : Pt) :
     FixedAfter π ⟨"RectVoltageSource", [("V", .num v), ("w", .num w), ("phi", .num phi), ("deg", .bool deg), ("name", .str name), ("reverse", .bool rev)], a, b⟩ := by
   intro la lb la' lb'
   cases deg <;> cases rev <;> simp [hv, hw, hw0, hp]
 
-theorem sh_RectVoltageSource_deg (π : Rat) (v w phi : GQ) (hv : v.im = 0) (hw : w.im = 0) (hw0 : ¬ w.re < 0) (hp : phi.im = 0) (deg rev : Bool) (name : String) (a b : Pt) :
+theorem sh_RectVoltageSource_deg (π : Rat) (v w phi : GQ) (hv : v.im = 0) (hw : w.im = 0) (hw0 : ¬ w.re ≤ 0) (hp : phi.im = 0) (deg rev : Bool) (name : String) (a b : Pt) :
     ShellKept π ⟨"RectVoltageSource", [("V", .num v), ("w", .num w), ("phi", .num phi), ("deg", .bool deg), ("name", .str name), ("reverse", .bool rev)], a, b⟩ := by
   intro la lb
   cases deg <;> cases rev <;> simp [hv, hw, hw0, hp]
 
-theorem stable_RectVoltageSource_deg (π : Rat) (v w phi : GQ) (hv : v.im = 0) (hw : w.im = 0) (hw0 : ¬ w.re < 0) (hp : phi.im = 0) (deg rev : Bool) (name : String) (a b : Pt) :
+theorem stable_RectVoltageSource_deg (π : Rat) (v w phi : GQ) (hv : v.im = 0) (hw : w.im = 0) (hw0 : ¬ w.re ≤ 0) (hp : phi.im = 0) (deg rev : Bool) (name : String) (a b : Pt) :
     ElemStable π ⟨"RectVoltageSource", [("V", .num v), ("w", .num w), ("phi", .num phi), ("deg", .bool deg), ("name", .str name), ("reverse", .bool rev)], a, b⟩ :=
   ⟨rt_RectVoltageSource_deg π v w phi hv hw hw0 hp deg rev name a b, fx_RectVoltageSource_deg π v w phi hv hw hw0 hp deg rev name a b, sh_RectVoltageSource_deg π v w phi hv hw hw0 hp deg rev name a b⟩
 
-theorem rt_RectCurrentSource_deg (π : Rat) (v w phi : GQ) (hv : v.im = 0) (hw : w.im = 0) (hw0 : ¬ w.re < 0) (hp : phi.im = 0) (deg rev : Bool) (name : String) (a b : Pt) :
+theorem rt_RectCurrentSource_deg (π : Rat) (v w phi : GQ) (hv : v.im = 0) (hw : w.im = 0) (hw0 : ¬ w.re ≤ 0) (hp : phi.im = 0) (deg rev : Bool) (name : String) (a b : Pt) :
     RoundTrips π ⟨"RectCurrentSource", [("I", .num v), ("w", .num w), ("phi", .num phi), ("deg", .bool deg), ("name", .str name), ("reverse", .bool rev)], a, b⟩ := by
   intro la lb la' lb'
   cases deg <;> cases rev <;> simp [hv, hw, hw0, hp]
 
-theorem fx_RectCurrentSource_deg (π : Rat) (v w phi : GQ) (hv : v.im = 0) (hw : w.im = 0) (hw0 : ¬ w.re < 0) (hp : phi.im = 0) (deg rev : Bool) (name : String) (a b : Pt) :
+theorem fx_RectCurrentSource_deg (π : Rat) (v w phi : GQ) (hv : v.im = 0) (hw : w.im = 0) (hw0 : ¬ w.re ≤ 0) (hp : phi.im = 0) (deg rev : Bool) (name : String) (a b : Pt) :
     FixedAfter π ⟨"RectCurrentSource", [("I", .num v), ("w", .num w), ("phi", .num phi), ("deg", .bool deg), ("name", .str name), ("reverse", .bool rev)], a, b⟩ := by
   intro la lb la' lb'
   cases deg <;> cases rev <;> simp [hv, hw, hw0, hp]
 
-theorem sh_RectCurrentSource_deg (π : Rat) (v w phi : GQ) (hv : v.im = 0) (hw : w.im = 0) (hw0 : ¬ w.re < 0) (hp : phi.im = 0) (deg rev : Bool) (name : String) (a b : Pt) :
+theorem sh_RectCurrentSource_deg (π : Rat) (v w phi : GQ) (hv : v.im = 0) (hw : w.im = 0) (hw0 : ¬ w.re ≤ 0) (hp : phi.im = 0) (deg rev : Bool) (name : String) (a b : Pt) :
     ShellKept π ⟨"RectCurrentSource", [("I", .num v), ("w", .num w), ("phi", .num phi), ("deg", .bool deg), ("name", .str name), ("reverse", .bool rev)], a, b⟩ := by
   intro la lb
   cases deg <;> cases rev <;> simp [hv, hw, hw0, hp]
 
-theorem stable_RectCurrentSource_deg (π : Rat) (v w phi : GQ) (hv : v.im = 0) (hw : w.im = 0) (hw0 : ¬ w.re < 0) (hp : phi.im = 0) (deg rev : Bool) (name : String) (a b : Pt) :
+theorem stable_RectCurrentSource_deg (π : Rat) (v w phi : GQ) (hv : v.im = 0) (hw : w.im = 0) (hw0 : ¬ w.re ≤ 0) (hp : phi.im = 0) (deg rev : Bool) (name : String) (a b : Pt) :
     ElemStable π ⟨"RectCurrentSource", [("I", .num v), ("w", .num w), ("phi", .num phi), ("deg", .bool deg), ("name", .str name), ("reverse", .bool rev)], a, b⟩ :=
   ⟨rt_RectCurrentSource_deg π v w phi hv hw hw0 hp deg rev name a b, fx_RectCurrentSource_deg π v w phi hv hw hw0 hp deg rev name a b, sh_RectCurrentSource_deg π v w phi hv hw hw0 hp deg rev name a b⟩
 
